@@ -54,7 +54,7 @@ def corner_models(rng, n):
     out = []
     kinds = ["rank0", "rank1", "rank2", "rank3", "rank5", "prime", "batch2", "float", "uint8", "int16", "int32",
              "bool", "noquant", "peraxis_act", "unsupported", "big_kernel", "stride4", "unit", "dup_inputs",
-             "two_outputs", "int64", "reshape_dyn", "custom_noopts", "bias40", "split_strided", "cpu_concat3"]
+             "two_outputs", "int64", "reshape_dyn", "custom_noopts", "bias40", "split_strided", "cpu_concat3", "bcast_one"]
     for i in range(n):
         k = kinds[i % len(kinds)] if i < len(kinds) else rng.choice(kinds)
         net = netgen.Net(rng.randrange(1 << 16))
@@ -163,6 +163,10 @@ def corner_models(rng, n):
             y = net.fm("out", [1, 4, 4, 24])
             net.op("CONCATENATION", [c, a, b], [y], ["ConcatenationOptions", {"Axis": 3, "FusedActivationFunction": 5}])
             fb = True
+        elif k == "bcast_one":          # run-time one-element operand broadcast over a large feature map
+            x = net.fm("in", [1, rng.choice([32, 64]), 64, rng.choice([16, 32])], is_input=True)
+            b = net.fm("b", [1, 1, 1, 1], scale=0.02, zp=1, is_input=True)
+            y = net.eltwise(rng.choice(["ADD", "MUL", "SUB"]), x, b)
         elif k == "two_outputs":
             x = net.fm("in", [1, 8, 8, 8], is_input=True)
             a = net.conv(x, 8, 3)
